@@ -18,6 +18,7 @@ META = {
 
 def run(s):
     K.suite_workload(s)
+    K.fixtures_workload(s)
     K.pair_histories(s, text='hostile')
     q = s.tier == 'quick'
     w = K.kind_weights(1, 1, 1.0, 0.04)
